@@ -148,7 +148,7 @@ def run_values(rep, r, wd, quick):
     """C02 value domain: every term of the result universe x backend x modifier, behaviour
     Call, Call, Memento, Forget, Call, Call validated against TransparentMon."""
     from . import values
-    uni = values.universe(r, nested=(60 if quick else 800)) + values.EXCEPTIONS
+    uni = values.universe(r, nested=(60 if quick else 800)) + values.EXCEPTIONS + values.override_terms()
     cfgs = [{"backend": "fs", "budget": 0}, {"backend": "fs", "budget": 65536}, {"backend": "fs", "budget": 200},
             {"backend": "memory", "budget": 0}]
     mods = ["normal", "ignore", "local"]
@@ -165,6 +165,8 @@ def run_values(rep, r, wd, quick):
             ops = ["Call", "Call", "Memento", "Forget", "Call", "Call", "Memento"]
             if c.get("budget") == 64 or (i + j) % 4 == 3:
                 ops = ["Call", "Forget", "Call", "Call", "Memento", "Forget", "Forget", "Call"]     # forget straight after the first call
+            if term["t"] == "ovr":
+                ops = ["Call", "Disturb", "Call", "Reopen", "Call", "Memento", "Forget", "Call", "Disturb", "Reopen", "Call"]
             jobs.append({"term": term, "cfg": dict(c, mod=m_), "ops": ops})
     traces = common.run_jobs("values_worker.py", jobs, wd, timeout=2400)
     payload = [{"cfg": values.mon_cfg(t["term"], t["cfg"]["mod"]), "ev": t["ev"]} for t in traces]
@@ -179,6 +181,7 @@ def run_values(rep, r, wd, quick):
         t = traces[rj["tid"] - 1]
         e = t["ev"][rj["prefix"]] if rj["prefix"] < len(t["ev"]) else {}
         facts = {"property": "C02", "domain": "values", "tag": t["term"]["t"], "cls": t["term"].get("cls", ""),
+                 "override_key": t["term"].get("key", ""),
                  "pkind": t["term"].get("kind", "") if t["term"]["t"] == "partition" else "",
                  "backend": t["cfg"]["backend"], "budget": t["cfg"].get("budget", 0), "mod": t["cfg"]["mod"],
                  "op": e.get("op"), "step": rj["prefix"] + 1, "why": sorted(rj["why"]), "excls": e.get("excls", ""),
